@@ -270,7 +270,7 @@ PROPS = {
     ),
     "C02": dict(
         module="Hb.Props.C02",
-        more_modules=["Hb.Props.C02SetTable", "Hb.Props.C02Forget"],
+        more_modules=["Hb.Props.C02SetTable", "Hb.Props.C02Forget", "Hb.Props.C02Bucket"],
         ties=[("scen", "mixed", 300, 10000), ("scen", "saturate", 80, 3000), ("scen", "entry-full", 120, 4000),
               ("scen", "table", 150, 5000), ("scen", "set", 100, 3000), ("scen", "iter", 100, 3000),
               ("scen", "panic-mixed", 4, 120), ("scen", "reserve", 100, 3000), ("scen", "clone", 80, 3000), ("custom", miri_support), ("custom", extras_oracle), ("t1", {})],
@@ -294,6 +294,13 @@ PROPS = {
         note="PARTIAL for the machine level: the model cannot exhibit pointer provenance/aliasing (Stacked/Tree Borrows), reads of "
              "uninitialised bytes as such, the SIMD loads or code generation; those are only exercised by the supporting "
              "validation above (not proof). Trusted: Lean kernel, axioms propext/Classical.choice/Quot.sound; harness/hooks. "
+             "Pointer level: Hb/Model/BucketPtr.lean models the Bucket<T> pointer encoding (sized: one-past pointers growing down from the "
+             "control bytes; zero-sized: index+1 pseudo-pointers) and the data pointer of RawIterRange over abstract addresses; "
+             "Hb.Props.C02Bucket proves round trip, injectivity, element regions inside the data part and pairwise disjoint, "
+             "next_n = index addition for both encodings, and that the iterator's pointer state refines the index-level iterator "
+             "model through new / advance / split / clone; the bodies of from_base_index, to_base_index, as_ptr, next_n, bucket_ptr, "
+             "bucket_index, into_allocation's block start and the data / next_ctrl expressions of RawIterRange::{new,next_impl,"
+             "fold_impl,split,clone} are REGENERATED from the source (T1) and proved equal to that model. "
              "Leaked objects: Hb.Props.C02Forget proves for every environment that leaking an ExtractIf after k steps, any borrowing "
              "iterator (incl. writes through IterMut / ValuesMut), an entry of any family right after creation (rustc_entry / "
              "HashTable::entry: the state after their reserve(1)), an OccupiedEntry after in-place updates or a VacantEntry's "
@@ -424,7 +431,7 @@ PROPS = {
     ),
     "C15": dict(
         module="Hb.Props.C15",
-        ties=[("scen", "table", 300, 10000), ("scen", "entry", 200, 6000), ("custom", extras_oracle)],
+        ties=[("scen", "table", 300, 10000), ("scen", "entry", 200, 6000), ("custom", extras_oracle), ("t1", {})],
         backends=["sse2", "portable"],
         design="§7 C15, §10 F2",
         text="Lean theorems for every environment (unlawful closures included): get_many_mut returns N results in request "
@@ -566,7 +573,7 @@ PROPS = {
     ),
     "C19": dict(
         module="Hb.Props.C19",
-        ties=[("scen", "par", 200, 3000)],
+        ties=[("scen", "par", 200, 3000), ("t1", {})],
         backends=["sse2", "portable"],
         design="§7 C19",
         text="Lean theorems about the rayon producers AND consumers: helpers::collect preserves order for every split tree; "
@@ -593,7 +600,7 @@ PROPS = {
         module="Hb.Props.C09",
         more_modules=["Hb.Props.C09Wrappers"],
         ties=[("scen", "iter", 300, 10000), ("scen", "mixed", 200, 6000), ("scen", "saturate", 40, 2000),
-              ("scen", "table", 150, 5000), ("scen", "set", 100, 3000), ("custom", extras_oracle)],
+              ("scen", "table", 150, 5000), ("scen", "set", 100, 3000), ("custom", extras_oracle), ("t1", {})],
         backends=["sse2", "portable"],
         design="§7 C09",
         text="Lean theorems: in every table state satisfying the structural invariant (proved preserved elsewhere; "
@@ -703,6 +710,8 @@ T1_GROUPS = [
     (r"replace_bucket_with", {"C14", "C04", "C02", "C13"}),
     (r"Tag|Group|BitMask|match_|repeat|generic|sse2|Generic|Sse2|convert_special", {"C18", "C01", "C06"}),
     (r"cautious|extend", {"C20", "C13", "C01"}),
+    (r"Bucket|RawIterRange|RawIter_|into_allocation|data_end|bucket_ptr|bucket_index|offset_from|RawTableInner_iter|RawTable_bucket|RawTableInner_bucket",
+     {"C02", "C09", "C15", "C03", "C10", "C01", "C06", "C19"}),
 ]
 
 
